@@ -795,39 +795,6 @@ func handedVec(d *dialSpec, o *dialObs) []bool {
 	return out
 }
 
-func (o *oracle) applyRequest(c config, d *dialSpec, handed []bool, relax int) []config {
-	rel := relevant(d)
-	var out []config
-	try := func(relax int, keep bool) {
-		for _, cu := range o.choices(kUDP, c[kUDP], rel[kUDP], d.RO, relax) {
-			for _, c6 := range o.choices(kIP6, c[kIP6], rel[kIP6], d.RO, relax) {
-				v := [2]int{cu.v, c6.v}
-				ok := true
-				for i := range d.Addrs {
-					if expectHanded(&d.Addrs[i], v) != handed[i] {
-						ok = false
-						break
-					}
-				}
-				if ok {
-					if keep {
-						out = append(out, c)
-					} else {
-						out = append(out, config{cu.next, c6.next})
-					}
-				}
-			}
-		}
-	}
-	try(relax, false)
-	if d.Op == "candial" && !d.RO {
-		// whether a CanDial query is one of the "requests" of the probe clause is not determined by the
-		// statement: also admit any answer the state permits, leaving the probe bookkeeping alone
-		try(relaxRun|relaxSpacing, true)
-	}
-	return out
-}
-
 func permute(xs []int, f func([]int)) {
 	var rec func(i int)
 	rec = func(i int) {
@@ -844,34 +811,101 @@ func permute(xs []int, f func([]int)) {
 	rec(0)
 }
 
+// assignment: one way in which one kind's counter may have answered the requests of a step: the verdict
+// per request (indexed like reqs) and the reference state afterwards.
+type assignment struct {
+	v     string
+	final kcfg
+}
+
+// kindAssignments enumerates them. Requests launched at the same instant reach a counter in an unknown
+// order, and the two counters need not see them in the same order (the real filter asks one counter
+// after the other, and two concurrent filter calls interleave): every order is admitted, per kind.
+func (o *oracle) kindAssignments(k int, c kcfg, st *stepSpec, reqs []int, relax int) map[assignment]struct{} {
+	out := map[assignment]struct{}{}
+	rel := make([]bool, len(reqs))
+	var movers []int // positions in reqs whose answer depends on, or changes, the probe bookkeeping
+	blocked := o.h.Enabled[k] && o.state(k, c.win) == "Blocked"
+	for i, di := range reqs {
+		rel[i] = relevant(&st.Dials[di])[k]
+		if blocked && rel[i] && !st.Dials[di].RO {
+			movers = append(movers, i)
+		}
+	}
+	base := make([]byte, len(reqs))
+	for i, di := range reqs {
+		ch := o.choices(k, c, rel[i], st.Dials[di].RO, relax)
+		base[i] = byte('0' + ch[0].v) // a single choice unless it is a mover
+	}
+	if len(movers) == 0 {
+		out[assignment{string(base), c}] = struct{}{}
+		return out
+	}
+	permute(movers, func(order []int) {
+		var rec func(n int, cur kcfg, v []byte)
+		rec = func(n int, cur kcfg, v []byte) {
+			if n == len(order) {
+				out[assignment{string(v), cur}] = struct{}{}
+				return
+			}
+			i := order[n]
+			d := &st.Dials[reqs[i]]
+			old := v[i]
+			for _, ch := range o.choices(k, cur, true, false, relax) {
+				v[i] = byte('0' + ch.v)
+				rec(n+1, ch.next, v)
+			}
+			if d.Op == "candial" {
+				// whether a CanDial query is one of the "requests" of the probe clause is not determined by
+				// the statement: also admit any answer the state permits, leaving the probe bookkeeping alone
+				for _, ch := range o.choices(k, cur, true, false, relaxRun|relaxSpacing) {
+					v[i] = byte('0' + ch.v)
+					rec(n+1, cur, v)
+				}
+			}
+			v[i] = old
+		}
+		rec(0, c, append([]byte(nil), base...))
+	})
+	return out
+}
+
+// requests: the configurations that explain which addresses of the step's requests were handed over.
 func (o *oracle) requests(st *stepSpec, so *stepObs, relax int) map[config]struct{} {
 	var reqs []int
+	var handed [][]bool
 	for di := range st.Dials {
 		if st.Dials[di].Op != "redial" {
 			reqs = append(reqs, di)
+			handed = append(handed, handedVec(&st.Dials[di], &so.Dials[di]))
 		}
 	}
 	next := map[config]struct{}{}
-	// requests launched at the same instant reach the filter in an unknown order
-	permute(reqs, func(order []int) {
-		cur := o.set
-		for _, di := range order {
-			nx := map[config]struct{}{}
-			hv := handedVec(&st.Dials[di], &so.Dials[di])
-			for c := range cur {
-				for _, c2 := range o.applyRequest(c, &st.Dials[di], hv, relax) {
-					nx[c2] = struct{}{}
+	for c := range o.set {
+		au := o.kindAssignments(kUDP, c[kUDP], st, reqs, relax)
+		a6 := o.kindAssignments(kIP6, c[kIP6], st, reqs, relax)
+		for u := range au {
+			for s := range a6 {
+				ok := true
+				for i, di := range reqs {
+					d := &st.Dials[di]
+					v := [2]int{int(u.v[i] - '0'), int(s.v[i] - '0')}
+					for ai := range d.Addrs {
+						if expectHanded(&d.Addrs[ai], v) != handed[i][ai] {
+							ok = false
+							break
+						}
+					}
+					if !ok {
+						break
+					}
+				}
+				if ok {
+					next[config{u.final, s.final}] = struct{}{}
 				}
 			}
-			cur = nx
-			if len(cur) == 0 {
-				return
-			}
 		}
-		for c := range cur {
-			next[c] = struct{}{}
-		}
-	})
+	}
 	return next
 }
 
@@ -1589,33 +1623,34 @@ func swarmRequire(r *run.R) {
 	race := os.Getenv("VERIF_RACE") == "1"
 	q := func(n int) int {
 		if race {
-			return max(1, n/3)
+			return max(1, n/20)
 		}
 		return n
 	}
-	r.Require("sw_requests_filtered_udp", q(150))
-	r.Require("sw_requests_filtered_ipv6", q(150))
-	r.Require("sw_probes_let_through_udp", q(60))
-	r.Require("sw_probes_let_through_ipv6", q(60))
-	r.Require("sw_success_while_blocked_udp", q(20))
-	r.Require("sw_success_while_blocked_ipv6", q(20))
-	r.Require("sw_requests_through_after_unblock_udp", q(20))
-	r.Require("sw_requests_through_after_unblock_ipv6", q(20))
-	r.Require("sw_private_addr_handed_while_blocked", q(100))
-	r.Require("sw_other_kind_addr_handed_while_blocked", q(100))
-	r.Require("sw_udp4_addr_handed_while_only_ipv6_blocked", q(20))
-	r.Require("sw_tcp6_addr_handed_while_only_udp_blocked", q(20))
-	r.Require("sw_dialpeer_refused_with_black_hole_error", q(50))
-	r.Require("sw_ro_refused_state_unknown", q(20))
-	r.Require("sw_ro_refused_state_blocked", q(20))
-	r.Require("sw_ro_allowed_known_good", q(20))
-	r.Require("sw_concurrent_groups", q(200))
+	r.Require("sw_requests_filtered_udp", q(3000))
+	r.Require("sw_requests_filtered_ipv6", q(2000))
+	r.Require("sw_probes_let_through_udp", q(2000))
+	r.Require("sw_probes_let_through_ipv6", q(1500))
+	r.Require("sw_success_while_blocked_udp", q(700))
+	r.Require("sw_success_while_blocked_ipv6", q(400))
+	r.Require("sw_requests_through_after_unblock_udp", q(600))
+	r.Require("sw_requests_through_after_unblock_ipv6", q(400))
+	r.Require("sw_private_addr_handed_while_blocked", q(5000))
+	r.Require("sw_other_kind_addr_handed_while_blocked", q(6000))
+	r.Require("sw_udp4_addr_handed_while_only_ipv6_blocked", q(1500))
+	r.Require("sw_tcp6_addr_handed_while_only_udp_blocked", q(700))
+	r.Require("sw_dialpeer_refused_with_black_hole_error", q(1500))
+	r.Require("sw_ro_refused_state_unknown", q(1000))
+	r.Require("sw_ro_refused_state_blocked", q(2000))
+	r.Require("sw_ro_allowed_known_good", q(400))
+	r.Require("sw_concurrent_groups", q(2000))
+	r.Require("sw_results_cancelled_after_answer", q(4000))
+	r.Require("sw_results_timeout", q(800))
+	r.Require("sw_tie_groups_mixed", q(1000))
+	r.Require("sw_ro_snapshots_compared", q(1000))
+	r.Require("sw_twin_histories_compared", q(80))
 	if !race {
-		r.Require("sw_ro_snapshots_compared", 200)
-		r.Require("sw_twin_histories_compared", 30)
-		r.Require("sw_candial_queries", 50)
-		r.Require("sw_redial_connected_peer_no_request", 20)
-		r.Require("sw_results_cancelled_after_answer", 50)
-		r.Require("sw_results_timeout", 50)
+		r.Require("sw_candial_queries", 800)
+		r.Require("sw_redial_connected_peer_no_request", 300)
 	}
 }
